@@ -542,7 +542,24 @@ def shapes():
         s[f"eth-ipv4-tcp(doff={doff})"] = [L("eth"), L("ipv4"), L("tcp", doff=doff)]
         if doff in (0, 6, 15):
             s[f"eth-ipv6-tcp(doff={doff})"] = [L("eth"), L("ipv6"), L("tcp", doff=doff)]
+    # length fields that disagree with the captured bytes (padding / trailers, short or oversized announcements)
+    for ln in (0, 7, 8, 9, 12, 65535):
+        s[f"eth-ipv4-udp(len={ln})"] = [L("eth"), L("ipv4"), L("udp", len=ln)]
+    s["eth-ipv6-udp(len=8)"] = [L("eth"), L("ipv6"), L("udp", len=8)]
+    s["eth-vlan-ipv4-udp(len=9)"] = [L("eth"), L("vlan"), L("ipv4"), L("udp", len=9)]
+    for tl in (0, 19, 20, 28, 30, 65535):
+        s[f"eth-ipv4(totlen={tl})-udp"] = [L("eth"), L("ipv4", totlen=tl), L("udp")]
+    for tl in (20, 40, 65535):
+        s[f"eth-ipv4(totlen={tl})-tcp"] = [L("eth"), L("ipv4", totlen=tl), L("tcp")]
+    for pl in (0, 8, 21, 65535):
+        s[f"eth-ipv6(plen={pl})-tcp"] = [L("eth"), L("ipv6", plen=pl), L("tcp")]
+    s["eth-ipv6(plen=3)-udp"] = [L("eth"), L("ipv6", plen=3), L("udp")]
     return s
+
+
+def with_trailer(frame, rng):
+    """the frame followed by bytes no length field accounts for (Ethernet padding, a trailer)"""
+    return frame + rb(rng, rng.choice([1, 2, 6, 18, 22]))
 
 
 def path_of(layers, upto=None):
